@@ -2,6 +2,7 @@ package eval
 
 import (
 	"fmt"
+	"strings"
 	"ti/base"
 	"ti/context"
 	"ti/parser"
@@ -397,6 +398,12 @@ func (d *Def) getMethodNameAndSetIsStatic(
 	}
 
 	method := t.ToString()
+
+	// a namespace separator is no method name (and would end up inside the
+	// ':::'-separated records of the editor modes)
+	if strings.Contains(method, "::") {
+		return "", fmt.Errorf("syntax error: '%s' is not a method name", method)
+	}
 
 	if method == "initialize" {
 		method = "new"
